@@ -229,7 +229,10 @@ func (w *W) EvalMine(oracle, input string) *Fail {
 		w.out.Samples = append(w.out.Samples, clip(oracle+": "+input, 300))
 	}
 	if res.Fail != nil {
-		res.Fail.Oracle, res.Fail.Witness = oracle, input
+		res.Fail.Oracle = oracle
+		if res.Fail.Witness == "" { // an oracle may name a different, self-contained input of its own (e.g. a longer history)
+			res.Fail.Witness = input
+		}
 		w.addFail(*res.Fail)
 		return res.Fail
 	}
